@@ -1,10 +1,35 @@
+import re
+
 from vlib import *
 from concurrent.futures import ThreadPoolExecutor
 
 
-def _hexbytes(h):
-    b = bytes.fromhex(h or "")
+def _lit(b):
     return "[" + "; ".join(str(x) for x in b) + "]"
+
+
+def _hexbytes(h):
+    return _lit(bytes.fromhex(h or ""))
+
+
+def _rel(name, base, h):
+    """The byte string h as a Coq term relative to the byte string `base`
+    bound to the Coq name `name`: common prefix and suffix are taken from the
+    base ([splice], Crypto/SnaclCorr.v), only the differing middle is spelled
+    out (a list literal of n numbers is expensive to parse and type-check; the
+    near misses of a 200-byte passphrase differ from it in a few bytes)."""
+    b = bytes.fromhex(h or "")
+    if b == base:
+        return name
+    p = 0
+    while p < len(b) and p < len(base) and b[p] == base[p]:
+        p += 1
+    q = 0
+    while q < len(b) - p and q < len(base) - p and b[len(b) - 1 - q] == base[len(base) - 1 - q]:
+        q += 1
+    if p + q < 8:
+        return _lit(b)
+    return "(splice %s %d%%nat %s %d%%nat)" % (name, p, _lit(b[p:len(b) - q]), q)
 
 
 def _rle(runs):
@@ -15,57 +40,112 @@ def _nat(n):
     return "%d%%nat" % n
 
 
+# this property's Coq files that the full build may not know yet (compiled by
+# hand, in this order, while Generated/SnaclFacts.v is not listed in _CoqProject)
+OWN = [
+    ("Generated/SnaclFacts.v", []),
+    ("Crypto/Snacl.v", ["Generated/SnaclFacts.v"]),
+    ("Crypto/SnaclProofs.v", ["Crypto/Snacl.v"]),
+    ("Crypto/SnaclCorr.v", ["Crypto/Snacl.v"]),
+    ("Properties/C17.v", ["Crypto/SnaclProofs.v"]),
+]
+
+MGR_OPS = {"open": 0, "unlock": 1, "unlock_unlocked": 2, "change_pub": 3, "change_priv": 4}
+
+
+def _near_pw(base_hex, name, pw_hex, var="b"):
+    """A presented passphrase relative to the creating one (bound to `var`).
+    The model's hash is not SHA-256: for a base passphrase longer than the
+    HMAC block its SHA-256 (the block it has in the real scrypt) is rendered as
+    the model's hash of it."""
+    base = bytes.fromhex(base_hex or "")
+    if len(base) > 64:
+        if name == "sha256":
+            return "(corr_hash %s)" % var
+        if name == "sha256_append_nul":
+            return "(corr_hash %s ++ [0])" % var
+    return _rel(var, base, pw_hex)
+
+
 class C17(Check):
     ID = "C17"
     RULE = ("real snacl (scrypt N=16,r=8,p=1 and other small parameter sets). cipher cases: a random 32-byte key and a random plaintext of "
             "each length in {0,1,15,16,17,31,32,33,63,64,65,255,256,300} (thorough: every length 0..300), all-zero / all-ones key and "
             "plaintext, plus n random lengths in 0..300; for each: Decrypt(Encrypt), EVERY single-bit flip of every ciphertext byte, EVERY "
             "strict truncation length, keys differing in one bit (all 256 single-bit flips for some cases) and the all-zero / all-ones "
-            "key, 8 encryptions of the same plaintext pairwise compared. pass cases: fixed and random passphrases (empty, 1 byte, "
-            "ASCII, UTF-8, NUL, 64 and 200 bytes): the creating passphrase after Zero and on a fresh SecretKey after Marshal/Unmarshal, "
-            "near misses (every single-bit flip incl. case changes, dropped first/last byte, appended NUL / space / letter, prepended "
-            "NUL, doubled, swapped ends, empty, upper/lower), Unmarshal of 12 input lengths. params cases: EVERY single-bit flip of "
-            "the 88 marshalled bytes followed by Unmarshal + DeriveKey(correct passphrase) (flips that would make scrypt allocate "
-            "> 64 MiB are not run and are counted). mgr cases: waddrmgr.Manager.Encrypt/Decrypt for the three crypto key types on a "
-            "freshly created manager (FastScryptOptions), unlocked and locked, every flip and truncation, decrypt under the other "
-            "key types. non-trivial = at least one tampered ciphertext / near-miss passphrase / flipped parameter byte was "
-            "actually submitted; distinct by input")
+            "key, 8 encryptions of the same plaintext pairwise compared. pass cases: 30 fixed base passphrases (empty; 1 byte; ASCII; "
+            "NUL; non-UTF-8; accented letters in NFC and in NFD; 63, 64, 65, 100 ASCII bytes; 64 and 200 random bytes; embedded NUL, CR LF, "
+            "tab; leading / trailing LF, CR LF, CR, space, tab, NUL; a lone LF; a lone space) plus n/4 random ones: the creating "
+            "passphrase after Zero and on a fresh SecretKey after Marshal/Unmarshal, then EVERY near miss on both - one flipped bit "
+            "(every bit of passphrases up to 16 bytes, 8 bits of ~14 positions of longer ones; thorough: every bit), case of the "
+            "first / last letter and of the whole (ASCII and Latin-1), each of NUL, space, tab, CR, LF, CR LF appended, appended twice, "
+            "prepended, on both ends, stripped from either end, removed everywhere, TrimRight of CR LF / of blanks / of NUL, TrimSpace, cut "
+            "at the first NUL / LF / CR, LF<->CR LF, tab->space, collapsed blanks, NFC->NFD (all / first letter), NFD->NFC, accents "
+            "stripped, truncation at 8/16/32/64/72 bytes, dropped first/last byte, swapped ends, empty, doubled, NUL padding to 64 and to "
+            "65 bytes, the SHA-256 of the passphrase (also + NUL, + letter); Unmarshal of 12 input lengths. An accepted near miss is "
+            "hmac_equivalent_passphrase_accepted iff its HMAC-SHA256 key block (zero padded to 64, SHA-256 if longer) equals the creating "
+            "one's, wrong_passphrase_accepted otherwise. params cases: EVERY single-bit flip of the 88 marshalled bytes followed by "
+            "Unmarshal + DeriveKey(correct passphrase) (flips that would make scrypt allocate > 64 MiB are not run and are counted). mgr "
+            "cases: waddrmgr.Manager.Encrypt/Decrypt for the three crypto key types on a freshly created manager (FastScryptOptions), "
+            "unlocked and locked, every flip and truncation, decrypt under the other key types. mgrpass cases: managers created with 8 "
+            "(public, private) passphrase pairs of the base family (thorough: one per base passphrase); waddrmgr.Open with the public "
+            "passphrase, Manager.Unlock on the locked and on the unlocked manager, ChangePassphrase's old-passphrase check (public and "
+            "private): the right passphrase, every near miss of it, the right one again. non-trivial = at least one tampered "
+            "ciphertext / near-miss passphrase / flipped parameter byte was actually submitted; distinct by input")
     N_QUICK = 24
     N_THOROUGH = 200
-    SHARD = 12
+    SHARD = 6
     ASSUMPTIONS = [
         "cryptographic strength enters as hypotheses, it is not proved: secretbox (XSalsa20-Poly1305) is taken as an ideal AEAD "
         "(law_open_only_sealed is exact; law_seal_binds / law_seal_no_near / law_seal_no_prefix are idealisations: no two sealed "
         "boxes collide, differ in one byte, or extend one another), scrypt as collision-free up to the HMAC key block of the "
-        "passphrase (law_kdf_inj) and sha256 as injective (law_hash_inj); every theorem lists the laws it uses as premises and "
-        "the toy instance of Crypto/Snacl.v satisfies all of them (C17_laws_satisfiable, C17_nonvacuous)",
+        "passphrase (law_kdf_inj) and sha256 as injective (law_hash_inj); the idealised laws are FALSE for the real primitives by "
+        "counting, so the theorems carrying them apply literally only to primitives like the toy instance of Crypto/Snacl.v "
+        "(C17_laws_satisfiable, C17_nonvacuous); Properties/C17.v says per theorem which laws, which wrapper logic and which "
+        "regenerated code fact it rests on",
         "law_kdf_hmac (the passphrase enters scrypt only through its HMAC-SHA256 key block) and law_kdf_domain (scrypt.Key's "
         "errors depend on N, r, p only) are exact properties of golang.org/x/crypto/scrypt v0.22.0, read from its source",
+        "three facts about snacl/snacl.go are regenerated from the source (lib/extract_c17.py -> Generated/SnaclFacts.v: go/ast "
+        "reader harness/cmd/extract-c17; a shape it does not recognise is decided by running the built code, harness/cmd/c17 -probe) "
+        "and are premises of the theorems about Decrypt and DeriveKey: the passphrase bytes reach scrypt.Key unchanged, DeriveKey "
+        "compares the whole digest, Decrypt returns an error when secretbox.Open fails; C17_fact_..._needed prove each necessary",
         "nonce freshness (no repeated 24-byte nonce from crypto/rand) is the random source's obligation: it is the hypothesis of "
         "C17_distinct_nonces_distinct_ciphertexts and is exercised by comparing repeated encryptions",
         "Go fixed-size arrays ([32]byte salt/digest/key, [24]byte nonce) appear in the model as byte strings with the length as an "
         "explicit premise (length n = NonceSize, params_in_range)",
-        "known finding (known_findings.json): passphrases with the same HMAC key block as the creating one (trailing NUL bytes) are "
-        "accepted - C17_passphrase_exact states acceptance iff equal key blocks, C17_passphrase_exact_outside_K the property's "
-        "clause outside that class, C17_refuted_trailing_nul the witness",
+        "known finding (known_findings.json): passphrases with the same HMAC key block as the creating one (trailing NUL bytes up to "
+        "the 64-byte block; the SHA-256 of a passphrase longer than 64 bytes) are accepted - C17_passphrase_exact states acceptance "
+        "iff equal key blocks, C17_passphrase_exact_outside_K the property's clause outside that class, C17_refuted_trailing_nul the "
+        "witness; the oracle gives that kind ONLY to an accepted passphrase whose key block (computed in the harness from the "
+        "definition of HMAC) equals the creating one's, whichever caller reached DeriveKey; every other accepted passphrase is "
+        "wrong_passphrase_accepted, replayed as the failing pair",
     ]
     PARTIAL_CLAUSES = [
         "'decryption under any other key / of an altered or truncated ciphertext fails' and 'accepts only the exact passphrase' are "
-        "proved for the wrapper logic of snacl.go under the ideal laws of the primitives; that the real secretbox / scrypt / sha256 "
-        "behave accordingly is exercised (every bit flip and truncation of every generated ciphertext, near-miss passphrases, every "
-        "bit flip of the stored parameters), not proved",
+        "proved for the wrapper logic of snacl.go (at the regenerated code facts) under the ideal laws of the primitives; that the "
+        "real secretbox / scrypt / sha256 behave accordingly is exercised (every bit flip and truncation of every generated "
+        "ciphertext, every near-miss passphrase of every base passphrase, every bit flip of the stored parameters), not proved",
         "'encrypting equal plaintexts twice never yields equal ciphertexts' is proved under the hypothesis that the two nonces "
-        "differ; the quality of crypto/rand is outside the model (exercised: 8 encryptions per case pairwise distinct)",
+        "differ (the theorem is 'different prefixes differ'); the quality of crypto/rand is outside the model (exercised: 8 "
+        "encryptions per case pairwise distinct)",
         "the model's ciphertext, key and digest BYTES are those of the toy instance; the correspondence compares lengths, outcome "
-        "classes at every tampering position and the parameter codec byte for byte, not ciphertext contents",
-        "waddrmgr: only Manager.Encrypt/Decrypt/selectCryptoKey are modelled (C17_manager_wrapper); loadManager/Unlock's use of "
-        "DeriveKey is exercised through Create/Open/Unlock/Lock of a real manager, not modelled here (C05 covers lock state)",
+        "classes at every tampering position (ok / ok with other data / error - WHICH error is not compared, no theorem depends on "
+        "it; ErrLocked, ErrInvalidKeyType and ErrInvalidPassword-vs-no-key are) and the parameter codec byte for byte",
+        "waddrmgr: Manager.Encrypt/Decrypt/selectCryptoKey (C17_manager_wrapper, a restatement of the transcription) and the "
+        "passphrase checks of loadManager / Unlock / ChangePassphrase (C17_manager_passphrase: error mapping + DeriveKey, the salted "
+        "SHA-512 of the unlocked path idealised as injective) are modelled; the rest of Unlock / ChangePassphrase (re-encryption of "
+        "the crypto keys, account key decryption) is exercised only (C05 covers lock state)",
+        "Unicode normalisation near misses use a built-in table of Latin-1 letters (NFC <-> NFD, accents stripped), not a full "
+        "normaliser",
         "observation outside the property text (not an oracle kind): a stored parameter flip that makes r = 0 or p = 0 makes "
-        "DeriveKey panic with a division by zero inside scrypt.Key (snacl does not validate stored N/r/p); counted in the evidence",
+        "DeriveKey panic with a division by zero inside scrypt.Key (snacl does not validate stored N/r/p); counted in the evidence, "
+        "folded with 'scrypt returned an error' in the comparison",
     ]
     EXTRA_TRUSTED = [
-        "golang.org/x/crypto v0.22.0 (secretbox, scrypt, pbkdf2) and crypto/sha256, crypto/rand: outside the model, idealised by the "
-        "law_* premises",
+        "golang.org/x/crypto v0.22.0 (secretbox, scrypt, pbkdf2) and crypto/sha256, crypto/sha512, crypto/rand: outside the model, "
+        "idealised by the law_* premises",
+        "harness/cmd/extract-c17 (source shapes it accepts as 'true') and harness/cmd/c17 -probe (scrypt.Key of x/crypto as the "
+        "reference for 'passphrase bytes unchanged')",
     ]
 
     def nontrivial(self, c):
@@ -75,6 +155,8 @@ class C17(Check):
             return o.get("n_flips", 0) > 0 or o.get("n_truncs", 0) > 0
         if k == "pass":
             return len(o.get("near", [])) > 0
+        if k == "mgrpass":
+            return len(o.get("mgr_near", [])) > 0
         if k == "params":
             return len(o.get("param_flips", [])) > 0
         return False
@@ -82,7 +164,7 @@ class C17(Check):
     def sample(self, c):
         c = json.loads(json.dumps(c))
         o = c["obs"]
-        for key, keep in (("wrong", 3), ("near", 4), ("param_flips", 80)):
+        for key, keep in (("wrong", 3), ("near", 4), ("mgr_near", 4), ("param_flips", 80)):
             if key in o and len(o[key]) > keep:
                 n = len(o[key])
                 o[key] = o[key][:keep] + ["...(%d entries)" % n]
@@ -95,13 +177,59 @@ class C17(Check):
             ciphertext_bit_flips_tried=tot("n_flips"),
             ciphertext_truncations_tried=tot("n_truncs"),
             near_miss_passphrases_tried=sum(len(c["obs"].get("near", [])) for c in cases),
+            near_miss_kinds_tried=len({n["name"].split(":")[0] for c in cases for n in c["obs"].get("near", []) + c["obs"].get("mgr_near", [])}),
+            manager_level_passphrase_attempts=sum(len(c["obs"].get("mgr_near", [])) for c in cases),
+            accepted_not_creating_passphrases=sorted({"%s (%s)" % (a["name"].split(":")[0], a["kind"])
+                                                      for c in cases for a in c["obs"].get("accepted_pairs", [])}),
+            code_facts_source=self.facts_source(),
             parameter_bit_flips_tried=sum(len(c["obs"].get("param_flips", [])) for c in cases),
             parameter_bit_flips_skipped_too_large=tot("skipped"),
             parameter_bit_flips_scrypt_error=tot("kdf_errors"),
             parameter_bit_flips_scrypt_panic_divide_by_zero=tot("panics"),
             hmac_equivalent_near_misses_accepted=tot("hmac_equiv_accepted"),
-            cases_by_kind={k: sum(1 for c in cases if c["in"]["kind"] == k) for k in ("cipher", "pass", "params", "mgr")},
+            cases_by_kind={k: sum(1 for c in cases if c["in"]["kind"] == k) for k in ("cipher", "pass", "params", "mgr", "mgrpass")},
         )
+
+    def facts_source(self):
+        try:
+            m = re.search(r"\(\* facts source: (.*?) \*\)", open(os.path.join(COQ, "Generated", "SnaclFacts.v")).read(), re.S)
+            return re.sub(r"\s+", " ", m.group(1)) if m else "unknown"
+        except OSError:
+            return "unknown"
+
+    # The recorded finding lives in snacl.SecretKey.DeriveKey whichever caller
+    # reaches it (waddrmgr.Open / Unlock / ChangePassphrase hand the passphrase
+    # to it): the HMAC-equivalence kind is attributed to that site.  The kind is
+    # only ever produced for passphrases with the creating passphrase's HMAC
+    # key block (harness: hmacBlock equality), never for Unlock on an unlocked
+    # manager (no kdf there).
+    def site_of(self, case, kind):
+        if kind == "hmac_equivalent_passphrase_accepted":
+            return "snacl.SecretKey.DeriveKey"
+        return case.get("site", "*")
+
+    # A violation about passphrases is replayed as the failing PAIR: the
+    # creating passphrase(s) of the case and, as "try", only the accepted
+    # passphrases that are not HMAC-equivalent.
+    def shrink(self, case, kind):
+        if kind != "wrong_passphrase_accepted":
+            return case
+        c = json.loads(json.dumps(case))
+        pairs = [a for a in c["obs"].get("accepted_pairs", []) if a["kind"] == kind]
+        if not pairs:
+            return case
+        first = pairs[0]
+        c["in"]["try"] = [first["presented"]]
+        c["obs"]["accepted_pairs"] = pairs[:8]
+        for key in ("near", "mgr_near"):
+            if key in c["obs"]:
+                c["obs"][key] = [n for n in c["obs"][key] if n["pw"] == first["presented"]]
+        c["failing_pair"] = dict(created_hex=first["created"], presented_hex=first["presented"],
+                                 created=bytes.fromhex(first["created"]).decode("latin-1"),
+                                 presented=bytes.fromhex(first["presented"]).decode("latin-1"),
+                                 near_miss=first["name"], accepted_at=first["at"],
+                                 others_accepted=sorted({a["name"].split(":")[0] for a in pairs})[:20])
+        return c
 
     def explained_by_known(self, case):
         # the model follows the code on the recorded finding too (HMAC key
@@ -115,11 +243,12 @@ class C17(Check):
         if k == "cipher":
             if not o.get("nonce"):
                 return "CUnknown"
-            return ("CCipher {| cc_key := %s; cc_nonce := %s; cc_pt := %s; cc_ctlen := %s; cc_rt := %d; "
+            key = bytes.fromhex(i["key"])
+            return ("let b := %s in CCipher {| cc_key := b; cc_nonce := %s; cc_pt := %s; cc_ctlen := %s; cc_rt := %d; "
                     "cc_flips := %s; cc_truncs := %s; cc_wrong := %s |}" % (
                         _hexbytes(i["key"]), _hexbytes(o["nonce"]), _hexbytes(i.get("pt", "")), _nat(o["ct_len"]), o["rt"],
                         _rle(o.get("flips")), _rle(o.get("truncs")),
-                        clist(["(%s, %s)" % (_hexbytes(w[0]), w[1]) for w in o.get("wrong", [])])))
+                        clist(["(%s, %s)" % (_rel("b", key, w[0]), w[1]) for w in o.get("wrong", [])])))
         if k == "mgr":
             return ("CMgr {| mc_locked := %s; mc_kt := %d; mc_nonce := %s; mc_pt := %s; mc_ctlen := %s; mc_rt := %d; "
                     "mc_flips := %s; mc_truncs := %s; mc_cross := %s |}" % (
@@ -129,13 +258,25 @@ class C17(Check):
         if k == "pass":
             if o.get("created") != "ok":
                 return "CCreateFail (%s, %s, %s, %s)" % (_hexbytes(i.get("pass", "")), cZ(i["N"]), cZ(i["r"]), cZ(i["p"]))
-            return ("CPass {| pc_pw := %s; pc_salt := %s; pc_digest := %s; pc_n := %s; pc_r := %s; pc_p := %s; "
+            return ("let b := %s in CPass {| pc_pw := b; pc_salt := %s; pc_digest := %s; pc_n := %s; pc_r := %s; pc_p := %s; "
                     "pc_marshalled := %s; pc_zero_ok := %s; pc_exact := %d; pc_restart := %d; pc_near := %s; pc_lens := %s |}" % (
                         _hexbytes(i.get("pass", "")), _hexbytes(o["salt"]), _hexbytes(o["digest"]),
                         cZ(i["N"]), cZ(i["r"]), cZ(i["p"]), _hexbytes(o["marshalled"]), cbool(o.get("zero_ok", False)),
                         o["exact"], o["restart"],
-                        clist(["(%s, %d, %d)" % (_hexbytes(n["pw"]), n["zeroed"], n["restart"]) for n in o.get("near", [])]),
+                        clist(["(%s, %d, %d)" % (_near_pw(i.get("pass", ""), n["name"], n["pw"]), n["zeroed"], n["restart"])
+                               for n in o.get("near", [])]),
                         clist(["(%s, %d)" % (_nat(a), b) for a, b in o.get("lens", [])])))
+        if k == "mgrpass":
+            base = i.get("pub", "") if i["op"] in ("open", "change_pub") else i.get("priv", "")
+            var = "bpub" if i["op"] in ("open", "change_pub") else "bpriv"
+            return ("let bpub := %s in let bpriv := %s in "
+                    "CMgrPass {| mq_op := %d; mq_pub := bpub; mq_priv := bpriv; mq_right := %d; mq_still := %s; mq_near := %s |}" % (
+                        _hexbytes(i.get("pub", "")), _hexbytes(i.get("priv", "")), MGR_OPS.get(i["op"], 9),
+                        o.get("right_ok", 0),      # omitted by the harness when 0 = accepted
+                        cbool(o.get("still_ok", False)),
+                        clist(["(%s, %d)" % (_near_pw(base, n["name"], n["pw"], var) if i["op"] != "unlock_unlocked"
+                                             else _rel(var, bytes.fromhex(base), n["pw"]), n["cls"])
+                               for n in o.get("mgr_near", [])])))
         if k == "params":
             if o.get("created") != "ok":
                 return "CCreateFail (%s, %s, %s, %s)" % (_hexbytes(i.get("pass", "")), cZ(i["N"]), cZ(i["r"]), cZ(i["p"]))
@@ -151,7 +292,51 @@ Definition cases : list case :=
 %s.
 Definition bad := Eval vm_compute in mismatches cases.
 Print bad.
-""" % clist(["\n " + self.render_case(c) for c in cases])
+""" % clist(["\n (" + self.render_case(c) + ")" for c in cases])
+
+    # -- Coq files not yet known to the full build ------------------------
+    def run(self, tier, seed, replay=None):
+        import vlib
+        orig = vlib.ensure_coq
+
+        def build_then_own():
+            r = orig()
+            self.ensure_own_files()
+            return r
+        vlib.ensure_coq = build_then_own
+        try:
+            return super().run(tier, seed, replay)
+        finally:
+            vlib.ensure_coq = orig
+
+    def ensure_own_files(self):
+        """While Generated/SnaclFacts.v is not listed in _CoqProject the full
+        build does not compile it and does not know that Crypto/Snacl.v depends
+        on it: compile the stale ones by hand, in dependency order, under the
+        build lock.  A file that does not compile is left to the normal
+        reporting (Properties/C17.v then fails to check)."""
+        listed = open(os.path.join(COQ, "_CoqProject")).read()
+        if all(f in listed for f, _ in OWN):
+            return
+        with Lock("coq"):
+            def mtime(p):
+                return os.path.getmtime(p) if os.path.exists(p) else None
+            for f, deps in OWN:
+                src = os.path.join(COQ, f)
+                if not os.path.exists(src):
+                    return
+                vo = mtime(src + "o")
+                stale = vo is None or vo < os.path.getmtime(src)
+                for d in deps:
+                    dvo = mtime(os.path.join(COQ, d) + "o")
+                    if dvo is None or (vo is not None and vo < dvo):
+                        stale = True
+                if stale:
+                    rc, out, err = sh(["timeout", "900", "coqc", "-R", ".", "Verif", f], cwd=COQ, timeout=1000)
+                    if rc != 0:
+                        if not f.startswith("Properties/"):
+                            log("C17: %s does not compile: %s" % (f, (out + err)[-800:]))
+                        return
 
     # shards are evaluated concurrently (each is an independent coqc run)
     def evaluate_model(self, cases):
